@@ -641,7 +641,7 @@ func (c *Ctx) c28Txn(g *c28cfg, sc c28script, caseNo int) error {
 	if sc.fixed != nil {
 		kind = "TxnWitness-" + g.name
 	}
-	c.Case(kind, fmt.Sprintf("(TxnCase %s %s %s %s %d %s %s %d)", g.dbTerm(), Zz(thr), Bool(sc.update), ListOf(ops), cts, Bool(sc.blocked), Zz(thrC), ccode),
+	c.Case(kind, fmt.Sprintf("(TxnCase %s %s %s %s %s %d %s %s %d)", Bool(c28MarkerFixed()), g.dbTerm(), Zz(thr), Bool(sc.update), ListOf(ops), cts, Bool(sc.blocked), Zz(thrC), ccode),
 		J{"cfg": g.name, "upd": sc.update, "ops": summary, "cts": cts, "blocked": sc.blocked})
 	rep := J{"cfg": g.name, "memtable": g.mts, "threshold": thr, "threshold_at_commit": thrC, "ops": summary, "commit_ts": cts, "commit_code": ccode, "all_writes_accepted": allAccepted}
 	if nWrites > 0 {
@@ -834,4 +834,26 @@ func runC28(c *Ctx) error {
 		}
 	}
 	return nil
+}
+
+// c28MarkerFixed reports the end-marker reservation of the current tree (finding F4): a fresh
+// update transaction starts with size len(txnKey)+10 on the pinned tree and len(txnKey)+30 once
+// the marker's real maximum is reserved.
+var c28MarkerFlag *bool
+
+func c28MarkerFixed() bool {
+	if c28MarkerFlag != nil {
+		return *c28MarkerFlag
+	}
+	res := false
+	db, err := badger.Open(badger.DefaultOptions("").WithInMemory(true).WithLoggingLevel(badger.ERROR))
+	if err == nil {
+		txn := db.NewTransaction(true)
+		_, size, _, _ := badger.VerifTxnState(txn)
+		res = size >= int64(len("!badger!txn")+30)
+		txn.Discard()
+		db.Close()
+	}
+	c28MarkerFlag = &res
+	return res
 }
